@@ -44,6 +44,10 @@ Definition step20 (s : s20) (o : line) : s20 * list bytes :=
   if beqb op (bs "set") then let ps' := ctx_set ps (arg 1 o) (arg 2 o) in (with_cur s ps', obs_state ps')
   else if beqb op (bs "del") then let ps' := ctx_delete ps (arg 1 o) in (with_cur s ps', obs_state ps')
   else if beqb op (bs "reset") then (with_cur s (c_reset ps), obs_state (c_reset ps))
+  (* quiet mutations: only Count is looked at, so that no Range separates them from the next mutation *)
+  else if beqb op (bs "qset") then let ps' := ctx_set ps (arg 1 o) (arg 2 o) in (with_cur s ps', [nat_to_dec (ctx_count ps')])
+  else if beqb op (bs "qdel") then let ps' := ctx_delete ps (arg 1 o) in (with_cur s ps', [nat_to_dec (ctx_count ps')])
+  else if beqb op (bs "range") then (s, obs_state ps)
   else if beqb op (bs "cycle") then
     let c := c_new (c_destroy (cs s)) in ({| tbl := tbl s; cs := c |}, obs_state (cur c))
   else if beqb op (bs "probe") then
@@ -78,6 +82,8 @@ Definition oracle20 (s s' : s20) (o : line) (r : list bytes) : list bytes :=
     (if beqb (f 18%nat) (nat_to_dec (length ps)) then [] else [bs "count"])
   else if beqb op (bs "cycle") then
     (if lines_eqb r [bs "0"] then [] else [bs "pool-not-empty"])
+  else if beqb op (bs "qset") || beqb op (bs "qdel") then
+    (if lines_eqb r [nat_to_dec (ctx_count (cur (cs s')))] then [] else [bs "count"])
   else
     (if lines_eqb r (obs_state (cur (cs s'))) then [] else [bs "map-law"]).
 
